@@ -32,6 +32,7 @@ Keys / security (Lite, Lite-S)
     MAC_A 91h     : Lite-S; read: MAC_A over block numbers + data; write: `Write(BN, 91h)` with MAC_A||WCNT
                     verified against the model's own WCNT; success increments WCNT.  STATE 92h is writable only
                     that way; byte 0 = 01h sets EXT_AUTH (external / mutual authentication).
+    model.wcnt_limit : WCNT value from which on writes with MAC are refused (default FFFFFFh, i.e. never)
     MC (88h)      : bytes 0-1 MC_SP (bit n = block n writable, bit 14 REG; bits only go 1 -> 0), byte 2 MC_ALL
                     (FFh system blocks 82h,84h,86h,87h,88h writable; anything else: locked for good), byte 3 SYS_OP
                     (bit 0 NDEF), byte 4 RF_PRM; Lite-S: byte 5 MC_CKCKV_W_MAC_A, 6-7 read needs EXT_AUTH,
